@@ -218,3 +218,51 @@ func rulerPrograms(lim int) []pm.Program {
 	}
 	return res
 }
+
+// rulerPrograms2 is the two-operation version of the tick ruler: every pair of operations (a of weight <= limA,
+// then b of weight <= limB, b may use a's promise / resolvers) after the same base, probes on every promise they
+// define, and the 8-tick ruler chain.
+func rulerPrograms2(limA, limB int) []pm.Program {
+	base := []pm.Op{
+		{K: pm.OpResolve, V: pm.Const(1)},
+		{K: pm.OpReject, V: pm.Const(2)},
+	}
+	c := ectx{nP: 2, nOps: 2}
+	L := limits{maxOps: 99, maxP: 99}
+	var res []pm.Program
+	for _, a := range alts(&c, limA, L) {
+		a := a
+		if a.op.K == pm.OpBreak || a.op.K == pm.OpTap {
+			continue
+		}
+		ca := c.after(&a)
+		for _, b := range alts(&ca, limB, L) {
+			if !a.op.Defines() && !b.op.Defines() {
+				continue
+			}
+			ops := append(append([]pm.Op(nil), base...), a.op, b.op)
+			n := 2
+			var probes []pm.Op
+			for i, o := range []pm.Op{a.op, b.op} {
+				if o.Defines() {
+					t := "A"
+					if i == 1 {
+						t = "B"
+					}
+					probes = append(probes, pm.Op{K: pm.OpThen, P: n, H1: hret("F"+t, pm.Const(3)), H2: hret("R"+t, pm.Const(4))})
+					n++
+				}
+			}
+			ops = append(ops, probes...)
+			n += len(probes)
+			prev := 0
+			for i := 0; i < 8; i++ {
+				ops = append(ops, pm.Op{K: pm.OpThen, P: prev, H1: hret("u"+itoa(i+1), pm.Const(10+i))})
+				prev = n
+				n++
+			}
+			res = append(res, pm.Program{Ops: ops})
+		}
+	}
+	return res
+}
